@@ -177,6 +177,15 @@ pub struct World {
     pub tasks_kv: KeyValueStore,
     /// Every task the stand-in executed, in order.
     pub task_log: Vec<TaskRun>,
+    /// Result of every `step()` call: the queue name of the task that ran
+    /// or `None` when nothing was due. Part of every witness.
+    pub step_log: Vec<Option<String>>,
+    /// When set, `step()` follows this recorded sequence (directed claims).
+    pub script: Option<std::collections::VecDeque<Option<String>>>,
+    /// Set when a scripted replay could not follow the recording.
+    pub diverged: bool,
+    /// Breaks ties between tasks due at the same (second-granular) time.
+    pub tie_rng: crate::util::Rng,
     _tokio: tokio::runtime::Runtime,
 }
 
@@ -201,7 +210,9 @@ impl World {
         World {
             krill, slow, actor, cfg,
             started: Timestamp::now(),
-            tasks_kv, task_log: vec![], _tokio: tokio,
+            tasks_kv, task_log: vec![], step_log: vec![], script: None,
+            diverged: false, tie_rng: crate::util::Rng::new(0x7a5c),
+            _tokio: tokio,
         }
     }
 
@@ -518,10 +529,60 @@ impl World {
         run
     }
 
-    /// Claims the next due task through the real `pop()` and runs it.
+    /// Runs the next due task. With a single earliest due task this is the
+    /// real `pop()`. Several tasks due with the same timestamp are claimed
+    /// by the real queue in storage listing order, which is arbitrary; the
+    /// stand-in then picks one of them with its seeded PRNG through a
+    /// directed claim. In scripted mode the recorded sequence is followed.
     pub fn step(&mut self) -> Option<TaskRun> {
-        let (key, value) = self.krill.tasks().pop()?;
-        Some(self.process_claimed(key, value))
+        if let Some(script) = self.script.as_mut() {
+            match script.pop_front() {
+                Some(None) => {
+                    self.step_log.push(None);
+                    return None
+                }
+                Some(Some(name)) => {
+                    let key = self.pending().into_iter()
+                        .find(|p| p.1 == name).map(|p| p.2);
+                    match key {
+                        Some(key) => {
+                            let run = self.step_directed(&key);
+                            self.step_log.push(Some(name));
+                            return run
+                        }
+                        None => {
+                            eprintln!("replay diverged: task {name} is not pending");
+                            self.diverged = true;
+                            self.script = None;
+                        }
+                    }
+                }
+                None => { self.script = None; }
+            }
+        }
+        let now = self.queue_now_ms();
+        let due: Vec<(u128, String, String)> = self.pending().into_iter()
+            .filter(|p| p.0 <= now).collect();
+        let run = match due.first().map(|p| p.0) {
+            None => None,
+            Some(min_ts) => {
+                let ties: Vec<&(u128, String, String)> = due.iter()
+                    .filter(|p| p.0 == min_ts).collect();
+                if ties.len() == 1 {
+                    let (key, value) = self.krill.tasks().pop()?;
+                    Some(self.process_claimed(key, value))
+                } else {
+                    let pick = self.tie_rng.below(ties.len() as u64) as usize;
+                    let key = ties[pick].2.clone();
+                    self.step_directed(&key)
+                }
+            }
+        };
+        self.step_log.push(run.as_ref().map(|r| {
+            r.key.split_once('-').map(|x| x.1.to_string())
+                .unwrap_or_else(|| r.key.clone())
+        }));
+        run
     }
 
     /// Directed claim: moves the chosen pending key to running (the same
@@ -562,43 +623,11 @@ impl World {
         &mut self, horizon_s: u64, limit: usize
     ) -> (Vec<TaskRun>, bool) {
         let mut runs = vec![];
-        let mut budget_ms: i128 = horizon_s as i128 * 1000;
-        let mut same_streak = 0usize;
-        let mut last_name = String::new();
-        loop {
-            if runs.len() >= limit { return (runs, false) }
-            match self.step() {
-                Some(r) => {
-                    let name = r.name();
-                    if name == last_name { same_streak += 1 }
-                    else { same_streak = 0; last_name = name }
-                    if same_streak >= 3 {
-                        // A task that keeps coming back at once waits for
-                        // real time (RRDP interval): give it some.
-                        std::thread::sleep(
-                            std::time::Duration::from_millis(120)
-                        );
-                    }
-                    runs.push(r);
-                }
-                None => {
-                    if !self.running().is_empty() {
-                        // nothing runs concurrently in the stand-in
-                        return (runs, false)
-                    }
-                    let now = self.queue_now_ms();
-                    let next = self.pending().into_iter().map(|p| p.0).min();
-                    match next {
-                        Some(ts) if (ts as i128 - now as i128) <= budget_ms => {
-                            let gap = (ts as i128 - now as i128).max(0) + 1;
-                            budget_ms -= gap;
-                            self.advance_ms(gap as i64);
-                        }
-                        _ => return (runs, true),
-                    }
-                }
-            }
-        }
+        let ok = quiesce_with(self, horizon_s, limit, &mut |_w, run| {
+            runs.push(run.clone());
+            true
+        });
+        (runs, ok)
     }
 
     /// Default quiescence: 90 virtual seconds, 400 tasks.
@@ -675,3 +704,49 @@ impl World {
 
 /// Removes fields that legitimately differ between otherwise equal states.
 pub fn strip_volatile(_v: &mut Value) { }
+
+/// Pumps the world until no task is due within `horizon_s` virtual seconds,
+/// calling `f` after every executed task (return false to stop early).
+/// Returns whether quiescence was reached.
+pub fn quiesce_with(
+    w: &mut World, horizon_s: u64, limit: usize,
+    f: &mut dyn FnMut(&mut World, &TaskRun) -> bool,
+) -> bool {
+    let mut n = 0usize;
+    let mut budget_ms: i128 = horizon_s as i128 * 1000;
+    let mut same_streak = 0usize;
+    let mut last_name = String::new();
+    loop {
+        if n >= limit { return false }
+        match w.step() {
+            Some(r) => {
+                n += 1;
+                let name = r.name();
+                if name == last_name { same_streak += 1 }
+                else { same_streak = 0; last_name = name }
+                if same_streak >= 3 {
+                    // A task that keeps coming back at once waits for real
+                    // time (RRDP interval): give it some.
+                    std::thread::sleep(std::time::Duration::from_millis(120));
+                }
+                if !f(w, &r) { return false }
+            }
+            None => {
+                if !w.running().is_empty() {
+                    // nothing runs concurrently in the stand-in
+                    return false
+                }
+                let now = w.queue_now_ms();
+                let next = w.pending().into_iter().map(|p| p.0).min();
+                match next {
+                    Some(ts) if (ts as i128 - now as i128) <= budget_ms => {
+                        let gap = (ts as i128 - now as i128).max(0) + 1;
+                        budget_ms -= gap;
+                        w.advance_ms(gap as i64);
+                    }
+                    _ => return true,
+                }
+            }
+        }
+    }
+}
